@@ -918,6 +918,10 @@ func (m *Model) Eval(q *Query) *Expected {
 				for b, v := range in.vals {
 					nv := *v
 					nv.Arrival = nil
+					if v.Arrival != nil {
+						a := *v.Arrival / secs
+						nv.Arrival = &a
+					}
 					nv.Possible = nil
 					for _, p := range v.Possible {
 						nv.Possible = append(nv.Possible, p/secs)
@@ -1003,6 +1007,26 @@ func (m *Model) Eval(q *Query) *Expected {
 						nv.Unknown = true
 					} else {
 						nv.Possible = s.vals
+					}
+				}
+				// the arrival rule carries through arithmetic: both operands have one established value
+				exact := func(v *ExpValue) (float64, bool) {
+					switch {
+					case v.Unknown:
+						return 0, false
+					case v.Arrival != nil:
+						return *v.Arrival, true
+					case len(v.Possible) == 1:
+						return v.Possible[0], true
+					}
+					return 0, false
+				}
+				if lv.Arrival != nil || rv.Arrival != nil {
+					la, lok2 := exact(lv)
+					ra, rok2 := exact(rv)
+					if lok2 && rok2 && !nv.Lenient {
+						a := op(la, ra)
+						nv.Arrival = &a
 					}
 				}
 				nv.Contributors = lv.Contributors + rv.Contributors
